@@ -21,6 +21,7 @@ CONSTANTS
   MaxDepth = %(depth)d
   EmitDepth = %(emit)d
   PruneBad = %(prune)s
+  PanOps = %(pan)s
   FixChipType = %(fct)s
   FixLfoTable = %(flt)s
   FixTables = %(ftab)s
@@ -32,6 +33,8 @@ ASSUME = [
     "harness/drive_isolation.cpp: the observed run and the solo runs of an execution each start in a fresh forked child of a process that never called the library; hook H1 (per-instance tap) sees every register write / period",
     "PCM and tap streams are compared through 64-bit FNV-1a hashes (a collision would hide a difference)",
     "freshly allocated C++ memory is filled with 0x00 (observed run, solo run 1) / a fixed varying byte sequence (solo run 2) by the harness's operator new (glibc M_PERTURB for malloc outside AddressSanitizer): dependence on uninitialised heap memory shows as a determinism failure; uninitialised stack reads are not provoked",
+    "observed run: the harness's operator new hands a block released by operator delete out again unchanged to the next request of the same size (LIFO per size, as a plain malloc does; AddressSanitizer alone never reuses a block): what a closed instance leaves in its objects is what an instance created later finds - dependence on it shows as an isolation failure; memory obtained with malloc directly is not recycled",
+    "panning decisions (value handed to writePan, L/R bits of the 0xB4 write that follows it) are recorded in clear for the first 24 decisions of a call; the rest is covered by the hash only",
     "thorough tier: ThreadSanitizer (clang 14) is the race oracle; calls of one round run concurrently, a barrier separates rounds, so only same-round accesses can be reported",
     "TLC 1.8 evaluates Isolation/IsolationTrace correctly",
 ]
@@ -41,9 +44,9 @@ def bools(b):
     return "TRUE" if b else "FALSE"
 
 
-def mc_cfg(name, n, depth, emit, prune, fix, extra):
+def mc_cfg(name, n, depth, emit, prune, fix, extra, pan=False):
     return checks.write_cfg(name, MC_CFG % {"n": n, "depth": depth, "emit": emit, "prune": bools(prune), "fct": bools(fix[0]),
-                                            "flt": bools(fix[1]), "ftab": bools(fix[2]), "extra": extra})
+                                            "flt": bools(fix[1]), "ftab": bools(fix[2]), "extra": extra, "pan": bools(pan)})
 
 
 def model_emit(q):
@@ -62,7 +65,7 @@ def model_emit(q):
                 out["cex"].append((n, c["h"], c["b1"]))
         out["runs"].append(r)
     for (n, emit, num) in ([(2, 10, 40), (3, 12, 25)] if q else [(2, 12, 400), (3, 14, 250)]):
-        cfg = mc_cfg("IsolationMC_sim_%d.cfg" % n, n, 1000, emit, False, (False, False, False), "CONSTRAINT Emit")
+        cfg = mc_cfg("IsolationMC_sim_%d.cfg" % n, n, 1000, emit, False, (False, False, False), "CONSTRAINT Emit", pan=True)
         r = vc.run_tlc("IsolationMC", cfg=cfg, timeout=600, heap="4g", simulate=num, depth=emit + 1, workers=4, tag="IsoSim%d" % n,
                        extra=["-noGenerateSpecTE"])
         ops = gi.mc_ops(r.out)
@@ -86,6 +89,14 @@ def model_verify(q):
     if not q:
         variants.append(("chip_type + lfotable per instance (P1 repaired, tables still shared)", (True, True, False), "NoBadP1", 2))
         variants.append(("all repairs", (True, True, True), "NoBad", 3))
+    # the same design with the calls on the instances' own settings / controllers: P1 covers the panning decision (eff.pan)
+    pd = 6 if q else 8
+    cfg = mc_cfg("IsolationMC_pan_%d.cfg" % pd, 2, pd, 0, False, (True, True, True), "INVARIANT NoBad\nCONSTRAINT DepthBound\nVIEW View", pan=True)
+    r = vc.run_tlc("IsolationMC", cfg=cfg, timeout=2400, heap="8g", workers=1, tag="IsoPan", extra=["-noGenerateSpecTE"])
+    r.scope = {"model": "all repairs, with soft-pan switch / pan and volume controllers / volume model calls of either instance", "N": 2,
+               "calls": pd - 1, "invariant": "NoBad", "expected": "holds", "complete": False}
+    r.cex = None
+    runs.append(r)
     for (name, fix, inv, n) in variants:
         cfg = mc_cfg("IsolationMC_fix_%s_%d.cfg" % ("".join("1" if f else "0" for f in fix), n), n, 1000 if n == 2 else 8, 0, False, fix,
                      "INVARIANT %s\nCONSTRAINT DepthBound\nVIEW View" % inv)
@@ -139,6 +150,7 @@ def check_c14(pid, tier, replay):
             [h for (a, b) in [(0, 0), (0, 2), (4, 5), (1, 8), (3, 6)] for h in gi.port_pair_executions(a, b)] +
             [h for e in gi.EMUS for h in gi.burst_executions(e)]),
         ("determinism_probes", gi.determinism_probes()),
+        ("own_settings_and_controllers", gi.settings_executions(q, vc.seed()) + gi.controller_probes()),
         ("random_interleavings", [gi.random_execution(rng) for _ in range(260 if q else 4000)]),
         ("threaded_no_detector", [gi.par_pair(a, a) for a in gi.EMUS] + [gi.par_many(rng, n) for n in (2, 3, 5, 8)]),
     ]
